@@ -33,6 +33,11 @@ def clause_id(oid):
 
 def discharge(o, tier):
   r = smt.prove(o.assumptions, o.goal, axioms_only=getattr(o, 'axioms_only', None))
+  if r.status == 'unknown':
+    # one retry with a three times larger budget before the obligation counts as not discharged (robustness under load)
+    r2 = smt.prove(o.assumptions, o.goal, axioms_only=getattr(o, 'axioms_only', None), timeout_ms=3 * smt.Z3_TIMEOUT_MS)
+    r2.seconds += r.seconds
+    r = r2
   o.result = r
   o.status = r.status
   cross = None
